@@ -421,6 +421,13 @@ Proof. vm_compute. reflexivity. Qed.
 Lemma qmark_preserved : in_names [63] preserved_names = true.
 Proof. vm_compute. reflexivity. Qed.
 
+(* the regenerated lexer tables are the sets of the reference grammar (a symbol or keyword added to
+   or removed from lexer.py breaks this cone too, not only C07's) *)
+Lemma tables_are_reference_sets :
+  forallb (fun x => mem_bytes x spec_symbols) symbols && forallb (fun x => mem_bytes x symbols) spec_symbols &&
+  forallb (fun k => mem_bytes k spec_keywords) lua_keywords && forallb (fun k => mem_bytes k lua_keywords) spec_keywords = true.
+Proof. vm_compute. reflexivity. Qed.
+
 Lemma mem_bytes_In x l : mem_bytes x l = true <-> In x l.
 Proof.
   unfold mem_bytes. rewrite existsb_exists. split.
